@@ -26,6 +26,31 @@ def Env.set (env : Env) (x : Var) (o : Obj) : Env :=
 
 abbrev RLog := List (Path × Obj)
 
+/-- What the helper functions do: `impl f args` = the value `h_f(*args)` returns, `none` if it raises. The soundness
+theorem is parametric in it (assumption `ImplOk`: whatever a helper returns belongs to its declared return type). -/
+abbrev Impl := Nat → List Obj → Option Obj
+
+/-- the elements iteration / unpacking sees. Sets and dicts are iterated in the order of their `Obj` representation
+(CPython: hash / insertion order — any order is a permutation of it, and the types involved constrain all elements
+alike). Everything else raises TypeError. -/
+def iterObj : Obj → Option (List Obj)
+  | .tuple xs => some xs
+  | .list xs => some xs
+  | .str s => some (s.toList.map fun c => Obj.str (String.singleton c))
+  | .bytes s => some (s.toList.map fun c => Obj.int c.toNat)
+  | .set xs => some xs
+  | .fset xs => some xs
+  | .dict ks _ => some ks
+  | _ => none
+
+/-- sequential binding of the targets (a repeated name keeps the last value) -/
+def setAll (env : Env) : List Var → List Obj → Env
+  | x :: xs, o :: os => setAll (env.set x o) xs os
+  | _, _ => env
+
+section
+variable (impl : Impl)
+
 /-- `x is None` / `x is not None` / `not …` -/
 def evalTest (env : Env) : Test → Option Bool
   | .isNone x pos => (env.get x).map fun o => isNoneObj o == pos
@@ -71,6 +96,13 @@ def evalExpr (env : Env) (p : Path) : Expr → Option Obj × RLog
        | (some o, lg) => (some o, lg ++ [(p, o)])
        | (none, lg) => (none, lg))
     | none => (none, [])
+  | .call f args =>
+    match evalList env p 0 args with
+    | (some os, lg) =>
+      (match impl f os with
+       | some r => (some r, lg ++ [(p, r)])
+       | none => (none, lg))
+    | (none, lg) => (none, lg)
 def evalList (env : Env) (p : Path) (k : Nat) : List Expr → Option (List Obj) × RLog
   | [] => (some [], [])
   | e :: es =>
@@ -92,12 +124,19 @@ inductive Outcome where
 mutual
 def execStmt (env : Env) (p : Path) : Stmt → Outcome × RLog
   | .assign x e =>
-    match evalExpr env (0 :: p) e with
+    match evalExpr impl env (0 :: p) e with
     | (some o, lg) => (.normal (env.set x o), lg)
     | (none, lg) => (.raised, lg)
   | .ret e =>
-    match evalExpr env (0 :: p) e with
+    match evalExpr impl env (0 :: p) e with
     | (some o, lg) => (.returned o, lg)
+    | (none, lg) => (.raised, lg)
+  | .unpack xs e =>
+    match evalExpr impl env (0 :: p) e with
+    | (some o, lg) =>
+      (match iterObj o with
+       | some os => if os.length == xs.length then (.normal (setAll env xs os), lg) else (.raised, lg)
+       | none => (.raised, lg))
     | (none, lg) => (.raised, lg)
   | .ifs t body els =>
     match evalTest env t with
@@ -114,13 +153,19 @@ def execBlock (env : Env) (p : Path) (k : Nat) : List Stmt → Outcome × RLog
     | (out, lg) => (out, lg)
 end
 
+end
+
 def initEnv (k : Nat) : List Obj → Env
   | [] => []
   | o :: os => (k, o) :: initEnv (k + 1) os
 
 /-- Calling the function on the arguments: outcome and the log of evaluated expression nodes. -/
-def exec (prog : Prog) (args : List Obj) : Outcome × RLog :=
-  execBlock (initEnv 0 args) [] 0 prog.body
+def exec (impl : Impl) (prog : Prog) (args : List Obj) : Outcome × RLog :=
+  execBlock impl (initEnv 0 args) [] 0 prog.body
+
+/-- the assumption on the helper functions: whatever `h_f` returns belongs to its declared return type -/
+def ImplOk (impl : Impl) (rets : List Ty) : Prop :=
+  ∀ f os r, impl f os = some r → mem liveTable r (rets.getD f .any) = true
 
 /-- the arguments are drawn from the declared parameter types -/
 def argsOk : List Ty → List Obj → Bool
